@@ -111,6 +111,12 @@ def check_mean(case, ctx):
     pd_arg = P(d_arg) if not isinstance(d_arg, tuple) else tuple(P(x) for x in d_arg)
     pw_arg = None if w_arg is None else (P(w_arg) if not isinstance(w_arg, tuple) else tuple(P(x) for x in w_arg))
     pcoords = (P(e), P(n)) + tuple(P(x) for x in extras)
+    if build.plain_flag(case):
+        # the same object is used on another (mirrored, shorter, shifted and shrunk) data set first: nothing may carry over to the judged call
+        try:
+            build.quiet(bm.filter, (np.ravel(e)[::-1][:-1] * 0.5 + 3.25, np.ravel(n)[::-1][:-1] * 0.5 - 1.75), np.ravel(data[0])[::-1][:-1] * 1.0, np.ones(data[0].size - 1))
+        except Exception:  # noqa: BLE001 - only its side effects matter here
+            pass
     res = bm.filter(pcoords, pd_arg, pw_arg) if weights is not None else bm.filter(pcoords, pd_arg)
     for a, b in zip(arrays, before):
         ctx.check(np.array_equal(a, b), "BlockMean.filter modified one of its input arrays")
